@@ -14,9 +14,9 @@
         unsafe { PUSHES += 1; if bad { DIRTY = true; } }
     }
 
-//# ob name=safe_join_clean_segments role=disabled fn=loader::safe_join kind=bounded bound="all UTF-8 template names of length <= 2 bytes; PathBuf::push replaced by a recording stub" stubs=push stmt="safe_join returns Some exactly when no '/'-separated segment starts with '.' or contains a backslash, and every segment handed to PathBuf::push is clean (no leading '.', no '\\', no '/'; an empty segment appends nothing): nothing that can leave the base directory or replace it is ever pushed"
-    // disabled: did not finish within 600 s for names <= 3 bytes nor <= 2 bytes (str::split CharSearcher + PathBuf);
-    // the contract is kept as text and the loader is covered by loader_confinement_native
+//# ob name=safe_join_clean_segments fn=loader::safe_join kind=bounded tier=thorough bound="all UTF-8 template names of length <= 2 bytes; PathBuf::push replaced by a recording stub" stubs=push stmt="safe_join returns Some exactly when no '/'-separated segment starts with '.' or contains a backslash, and every segment handed to PathBuf::push is clean (no leading '.', no '\\', no '/'; an empty segment appends nothing): nothing that can leave the base directory or replace it is ever pushed"
+    // thorough tier: 334 s on an idle machine for names <= 2 bytes (str::split CharSearcher + PathBuf); <= 3 bytes did not
+    // finish in 600 s
     #[kani::proof]
     #[kani::unwind(5)]
     #[kani::stub(std::path::PathBuf::push, push_stub)]
